@@ -36,20 +36,29 @@ def rootName : FNs → Name
   | .svg => .svg
   | .mathml => .math
 
+/-- names of foreign elements that are no integration points and that the rules for foreign content push
+as they are (§13.2.6.5 "any other start tag"): not a breakout tag, not `font`, not `annotation-xml` (whose `svg`
+children are dispatched to the HTML rules), not an integration point name of the namespace -/
+def PlainF (ns : FNs) (n : Name) : Bool :=
+  !n.isIn breakoutNames && n != .font && n != .annotationXml &&
+  (match ns with
+   | .svg => !n.isIn [.foreignobject, .desc, .title]
+   | .mathml => !n.isIn [.mi, .mo, .mn, .ms, .mtext])
+
 mutual
   /-- name-level side conditions of foreign content (the standard's view of the same derivation) -/
   def FSOk (nm : Bytes → Name) (atr : Spec.Island.Attrs → Attrs) (ns : FNs) : FSeq → Prop
     | .nil => True
     | .text r => FSOk nm atr ns r
-    | .selfClosing n _ r => (nm n).isOther = true ∧ FSOk nm atr ns r
-    | .elem n _ c r => (nm n).isOther = true ∧ FSOk nm atr ns c ∧ FSOk nm atr ns r
+    | .selfClosing n _ r => PlainF ns (nm n) = true ∧ FSOk nm atr ns r
+    | .elem n _ c r => PlainF ns (nm n) = true ∧ FSOk nm atr ns c ∧ FSOk nm atr ns r
     | .ip n a b r => IsIPName ns (nm n) (atr a) ∧ HSOk nm atr b ∧ FSOk nm atr ns r
   /-- name-level side conditions of HTML content inside an integration point -/
   def HSOk (nm : Bytes → Name) (atr : Spec.Island.Attrs → Attrs) : HSeq → Prop
     | .nil => True
     | .text r => HSOk nm atr r
-    | .void n _ _ r => (nm n).isIn voidNames = true ∧ HSOk nm atr r
-    | .elem n _ c r => (nm n).isOther = true ∧ HSOk nm atr c ∧ HSOk nm atr r
+    | .void n _ _ r => (nm n).isIn voidLikeNames = true ∧ HSOk nm atr r
+    | .elem n _ c r => (nm n).isOrd = true ∧ HSOk nm atr c ∧ HSOk nm atr r
     | .island ns n _ c r => nm n = rootName ns ∧ FSOk nm atr ns c ∧ HSOk nm atr r
 end
 
@@ -70,14 +79,28 @@ theorem startTagNs_of (s : State) (e : El) (es : List El) (h : s.tree.stack = e 
     s.startTagNs = if e.isMathmlTextIP || e.isHtmlIP then .html else e.ns := by
   simp [State.startTagNs, State.stack, h]
 
-theorem other_notIP (id : Nat) (ns : Ns) (n : Name) (a : Attrs) (hn : n.isOther = true) :
-    (⟨id, ns, n, a⟩ : El).isMathmlTextIP = false ∧ (⟨id, ns, n, a⟩ : El).isHtmlIP = false ∧ n ≠ .annotationXml := by
-  cases n <;> simp [Name.isOther] at hn
-  simp [El.isMathmlTextIP, El.isHtmlIP, El.isSvgHtmlIP, Name.isIn]
+theorem plainF_notIP (id : Nat) (ns : FNs) (n : Name) (a : Attrs) (hn : PlainF ns n = true) :
+    (⟨id, ns.toNs, n, a⟩ : El).isMathmlTextIP = false ∧ (⟨id, ns.toNs, n, a⟩ : El).isHtmlIP = false ∧ n ≠ .annotationXml := by
+  simp only [PlainF, Bool.and_eq_true, Bool.not_eq_true', bne_iff_ne, ne_eq] at hn
+  obtain ⟨⟨⟨_, _⟩, h3⟩, h4⟩ := hn
+  cases ns
+  · simp only [Bool.not_eq_true'] at h4
+    refine ⟨by simp [El.isMathmlTextIP, FNs.toNs], ?_, h3⟩
+    simp [El.isHtmlIP, El.isSvgHtmlIP, FNs.toNs, h4]
+  · simp only [Bool.not_eq_true'] at h4
+    refine ⟨by simp [El.isMathmlTextIP, FNs.toNs, h4], ?_, h3⟩
+    simp [El.isHtmlIP, El.isSvgHtmlIP, FNs.toNs, h3]
 
-theorem other_plain (n : Name) (hn : n.isOther = true) : n.isIn breakoutNames = false ∧ n ≠ .font ∧ n.isIn [.br, .p] = false := by
-  cases n <;> simp [Name.isOther] at hn
-  exact ⟨other_not_breakout _, by simp, other_isIn _ _ (by decide)⟩
+theorem plainF_plain (ns : FNs) (n : Name) (hn : PlainF ns n = true) :
+    n.isIn breakoutNames = false ∧ n ≠ .font ∧ n.isIn [.br, .p] = false := by
+  simp only [PlainF, Bool.and_eq_true, Bool.not_eq_true', bne_iff_ne, ne_eq] at hn
+  obtain ⟨⟨⟨h1, h2⟩, _⟩, _⟩ := hn
+  refine ⟨h1, h2, ?_⟩
+  cases hq : n.isIn [.br, .p]
+  · rfl
+  · exfalso
+    have : n = .br ∨ n = .p := by simpa [Name.isIn] using hq
+    rcases this with rfl | rfl <;> simp [breakoutNames, Name.isIn] at h1
 
 theorem ipName_plain (ns : FNs) (n : Name) (a : Attrs) (h : IsIPName ns n a) :
     n.isIn breakoutNames = false ∧ n ≠ .font ∧ n.isIn [.br, .p] = false ∧ n ≠ .svg := by
@@ -118,7 +141,7 @@ mutual
     | .selfClosing n a r, h, s, hb, ht => by
       simp only [FSOk] at h
       obtain ⟨e, e', rest, hst, h1, h2, h3, h4⟩ := ht
-      obtain ⟨p1, p2, -⟩ := other_plain _ h.1
+      obtain ⟨p1, p2, -⟩ := plainF_plain ns _ h.1
       have hs := step_foreign_push c s e (e' :: rest) (nm n) true (atr a) hst (h1 ▸ toNs_ne_html ns) h2 h3
         (fun hx => absurd hx h4) p1 p2
       simp only [if_true] at hs
@@ -132,11 +155,13 @@ mutual
       simp only [FSOk] at h
       obtain ⟨ho, hq, hr⟩ := h
       obtain ⟨e, e', rest, hst, h1, h2, h3, h4⟩ := ht
-      obtain ⟨p1, p2, p3⟩ := other_plain _ ho
+      obtain ⟨p1, p2, p3⟩ := plainF_plain ns _ ho
       have hs := step_foreign_push c s e (e' :: rest) (nm n) false (atr a) hst (h1 ▸ toNs_ne_html ns) h2 h3
         (fun hx => absurd hx h4) p1 p2
       simp only [Bool.false_eq_true, if_false] at hs
-      obtain ⟨q1, q2, q3⟩ := other_notIP s.tree.nextId e.ns (nm n) (atr a) ho
+      obtain ⟨q1, q2, q3⟩ : (⟨s.tree.nextId, e.ns, nm n, atr a⟩ : El).isMathmlTextIP = false ∧
+          (⟨s.tree.nextId, e.ns, nm n, atr a⟩ : El).isHtmlIP = false ∧ nm n ≠ .annotationXml := by
+        rw [h1]; exact plainF_notIP s.tree.nextId ns (nm n) (atr a) ho
       -- the children
       obtain ⟨s1, hr1, hb1, hst1⟩ := fseq_ssteps ns q hq (step c s (.start (nm n) false (atr a))).st
         ⟨hs.2.2.1.trans hb.1, hs.2.2.2.1.trans hb.2⟩ ⟨_, e, e' :: rest, hs.2.2.2.2, h1, q1, q2, q3⟩
@@ -186,7 +211,7 @@ mutual
     | .void n a sc r, h, s, hb, ht => by
       simp only [HSOk] at h
       obtain ⟨e, e', rest, hst, htop⟩ := ht
-      have hs := step_html_void c s e (e' :: rest) (nm n) sc (atr a) hst htop hb.1 hb.2 h.1
+      have hs := step_html_voidLike c s e (e' :: rest) (nm n) sc (atr a) hst htop hb.1 hb.2 h.1
       obtain ⟨s', hr, hb', hst'⟩ := hseq_ssteps r h.2 (step c s (.start (nm n) sc (atr a))).st
         ⟨hs.2.2.1.trans hb.1, hs.2.2.2.1.trans hb.2⟩ ⟨e, e', rest, hs.2.2.2.2, htop⟩
       refine ⟨s', ?_, hb', hst'.trans (hs.2.2.2.2.trans hst.symm)⟩
@@ -198,17 +223,16 @@ mutual
       simp only [HSOk] at h
       obtain ⟨ho, hq, hr⟩ := h
       obtain ⟨e, e', rest, hst, htop⟩ := ht
-      obtain ⟨k, hk⟩ : ∃ k, nm n = .other k := by cases hn : nm n <;> simp [hn, Name.isOther] at ho; exact ⟨_, rfl⟩
-      have hs := step_html_start_other c s e (e' :: rest) k false (atr a) hst htop hb.1 hb.2
-      have htop1 : HtmlTop (⟨s.tree.nextId, .html, .other k, atr a⟩ : El) := Or.inl rfl
-      obtain ⟨s1, hr1, hb1, hst1⟩ := hseq_ssteps q hq (step c s (.start (.other k) false (atr a))).st
+      have hs := step_html_start_ord c s e (e' :: rest) (nm n) false (atr a) ho hst htop hb.1 hb.2
+      have htop1 : HtmlTop (⟨s.tree.nextId, .html, nm n, atr a⟩ : El) := Or.inl rfl
+      obtain ⟨s1, hr1, hb1, hst1⟩ := hseq_ssteps q hq (step c s (.start (nm n) false (atr a))).st
         ⟨hs.2.2.1.trans hb.1, hs.2.2.2.1.trans hb.2⟩ ⟨_, e, e' :: rest, hs.2.2.2.2, htop1⟩
-      have hst1' : s1.tree.stack = ⟨s.tree.nextId, .html, .other k, atr a⟩ :: e :: e' :: rest := hst1.trans hs.2.2.2.2
-      have he := step_html_end_other c s1 _ (e :: e' :: rest) k hst1' rfl rfl hb1.1
-      obtain ⟨s2, hr2, hb2, hst2⟩ := hseq_ssteps r hr (step c s1 (.end (.other k))).st
+      have hst1' : s1.tree.stack = ⟨s.tree.nextId, .html, nm n, atr a⟩ :: e :: e' :: rest := hst1.trans hs.2.2.2.2
+      have he := step_html_end_ord c s1 _ (e :: e' :: rest) (nm n) ho hst1' rfl rfl hb1.1
+      obtain ⟨s2, hr2, hb2, hst2⟩ := hseq_ssteps r hr (step c s1 (.end (nm n))).st
         ⟨he.2.2.1.trans hb1.1, he.2.2.2.1.trans hb1.2⟩ ⟨e, e', rest, he.2.2.2.2, htop⟩
       refine ⟨s2, ?_, hb2, hst2.trans (he.2.2.2.2.trans hst.symm)⟩
-      simp only [HSeq.flat, List.map_cons, List.map_append, tokOf, startEv, endEv, if_true, Bool.false_eq_true, if_false, hk]
+      simp only [HSeq.flat, List.map_cons, List.map_append, tokOf, startEv, endEv, if_true, Bool.false_eq_true, if_false]
       refine SSteps.step c hs (fun s'' h'' => ?_) (SSteps.append hr1 (SSteps.step c he (fun s'' h'' => ?_) hr2))
       · rw [startTagNs_of s'' _ _ h'']; simp [El.isMathmlTextIP, El.isHtmlIP, El.isSvgHtmlIP]
       · rw [startTagNs_of s'' e _ h'']
